@@ -1387,10 +1387,10 @@ impl Stdfs {
     /// ```
     pub fn remove<T: AsRef<Path>>(path: T) -> RvResult<()> {
         let path = Stdfs::abs(path)?;
-        if let Ok(meta) = fs::metadata(&path) {
-            if meta.is_file() {
+        if let Ok(meta) = fs::symlink_metadata(&path) {
+            if !meta.is_dir() {
                 fs::remove_file(&path)?;
-            } else if meta.is_dir() {
+            } else {
                 let result = fs::remove_dir(&path);
 
                 // Normalize IO errors
